@@ -3,7 +3,7 @@
    trivially relocatable lists): same invariant as C02Hist.v, carried by NtRefine.vstep_rep_nt. *)
 From Coq Require Import ZArith Lia List Bool.
 From Cntgs Require Import Base BaseLemmas Layout LayoutThm Mem MemLemmas Vector Spec Rep ElemLemmas Ordered
-  EsizeThm Refine C02Thm NeededThm TightThm C02Hist NtRefine.
+  EsizeThm Refine C02Thm NeededThm TightThm C02Hist NtRefine FixedErase.
 Import ListNotations.
 Local Open Scope Z_scope.
 
@@ -73,13 +73,24 @@ Section HistNt.
       destruct (insert_into true true L v 0 junk) as [[v1 m] e1]. cbn. auto.
   Qed.
 
-  Theorem binv_step_nt junk v s B o : BInv L v s B ->
-    svalid L (fixed_counts L (v_fixed v)) s o -> bvalid L s B o -> nt_ok L s o ->
+  (* the step of the invariant, given what the operation does to the representation and to
+     the stride / block size *)
+  Lemma binv_step_core junk v s B o : BInv L v s B ->
+    svalid L (fixed_counts L (v_fixed v)) s o -> bvalid L s B o ->
+    (Rep L (vstep L junk v o) (s_elems (sstep s o)) /\ v_cap (vstep L junk v o) = s_cap (sstep s o) /\
+     v_fixed (vstep L junk v o) = v_fixed v) ->
+    (v_stride (vstep L junk v o) = v_stride v /\
+     v_units (vstep L junk v o) =
+       match o with
+       | SReserve n b =>
+           if v_cap v <? n then
+             units L (if has_varying L then needed n b (esize L (v_fixed v)) else needed_grow_fixed n b (v_stride v))
+           else v_units v
+       | _ => v_units v
+       end) ->
     BInv L (vstep L junk v o) (sstep s o) (bstep s B o).
   Proof.
-    intros (R & Hc & Hc0 & HB & Hp & Hfx & Hstr & Hblk) Hv Hbv Hnt.
-    destruct (vstep_rep_nt L Hwf junk v s o R Hc Hv Hnt) as (R' & Hc' & Hf).
-    destruct (vstep_frame_nt junk v s o R Hv Hnt) as [Est Eun].
+    intros (R & Hc & Hc0 & HB & Hp & Hfx & Hstr & Hblk) Hv Hbv (R' & Hc' & Hf) [Est Eun].
     destruct (esize_signs L Hwf Htl _ Hfx) as [Hs Hst].
     assert (HT : Forall (tuple_ok L (fixed_counts L (v_fixed v)) 0) (s_elems s)).
     { destruct R as [offs R]. exact (r_tuples _ _ _ _ R). }
@@ -116,6 +127,70 @@ Section HistNt.
       + rewrite Z.max_l by lia. repeat split; auto; lia.
   Qed.
 
+  Theorem binv_step_nt junk v s B o : BInv L v s B ->
+    svalid L (fixed_counts L (v_fixed v)) s o -> bvalid L s B o -> nt_ok L s o ->
+    BInv L (vstep L junk v o) (sstep s o) (bstep s B o).
+  Proof.
+    intros HI Hv Hbv Hnt. pose proof HI as (R & Hc & _).
+    apply binv_step_core; auto.
+    - exact (vstep_rep_nt L Hwf junk v s o R Hc Hv Hnt).
+    - exact (vstep_frame_nt junk v s o R Hv Hnt).
+  Qed.
+
+  (* lists without a VaryingSize parameter: every operation (FixedErase.v) *)
+  Lemma vstep_frame_ntx junk v s o : Rep L v (s_elems s) ->
+    svalid L (fixed_counts L (v_fixed v)) s o -> nt_okx L s o ->
+    v_stride (vstep L junk v o) = v_stride v /\
+    v_units (vstep L junk v o) =
+      match o with
+      | SReserve n b =>
+          if v_cap v <? n then
+            units L (if has_varying L then needed n b (esize L (v_fixed v)) else needed_grow_fixed n b (v_stride v))
+          else v_units v
+      | _ => v_units v
+      end.
+  Proof.
+    intros R Hv [Hnv|Hn]; [|exact (vstep_frame_nt junk v s o R Hv Hn)].
+    destruct (all_triv L) eqn:Ht.
+    { exact (vstep_frame L Ht junk v o). }
+    destruct o as [t| |i|i j| |n b]; try (exact (vstep_frame_nt junk v s _ R Hv (or_intror I))).
+    - cbn [svalid] in Hv.
+      destruct (Z.eq_dec (i + 1) (Z.of_nat (length (s_elems s)))) as [E|E].
+      { exact (vstep_frame_nt junk v s (SErase i) R Hv (or_intror E)). }
+      destruct R as [offs R]. cbn [vstep].
+      pose proof (erase_rep_fixed_nt L Hwf Hnv Ht v _ offs R (Z.to_nat i) ltac:(lia)) as H.
+      rewrite Z2Nat.id in H by lia. cbv zeta in H. destruct H as (_ & _ & _ & _ & H1 & H2). auto.
+    - destruct (Z.eq_dec j (Z.of_nat (length (s_elems s)))) as [E|E].
+      { exact (vstep_frame_nt junk v s (SEraseRange i j) R Hv (or_intror E)). }
+      cbn [svalid] in Hv. destruct Hv as [Hi Hj].
+      destruct R as [offs R]. cbn [vstep].
+      pose proof (erase_range_rep_fixed_nt L Hwf Hnv Ht v _ offs R (Z.to_nat i) (Z.to_nat j)
+                    ltac:(lia) ltac:(left; lia) ltac:(lia)) as H.
+      rewrite !Z2Nat.id in H by lia. cbv zeta in H. destruct H as (_ & _ & _ & _ & H1 & H2). auto.
+  Qed.
+
+  Theorem binv_step_ntx junk v s B o : BInv L v s B ->
+    svalid L (fixed_counts L (v_fixed v)) s o -> bvalid L s B o -> nt_okx L s o ->
+    BInv L (vstep L junk v o) (sstep s o) (bstep s B o).
+  Proof.
+    intros HI Hv Hbv Hnt. pose proof HI as (R & Hc & _).
+    apply binv_step_core; auto.
+    - exact (vstep_rep_ntx L Hwf junk v s o R Hc Hv Hnt).
+    - exact (vstep_frame_ntx junk v s o R Hv Hnt).
+  Qed.
+
+  Theorem binv_run_ntx junk h : forall v s B, BInv L v s B ->
+    shist_valid L (fixed_counts L (v_fixed v)) s h -> bhist_valid L s B h -> nt_hist_okx L s h ->
+    exists B', BInv L (vrun L junk v h) (srun s h) B'.
+  Proof.
+    induction h as [|o h IH]; intros v s B HI Hv Hb Hn; cbn [vrun srun shist_valid bhist_valid nt_hist_okx] in *; [eauto|].
+    destruct Hv as [Hv1 Hv2]. destruct Hb as [Hb1 Hb2]. destruct Hn as [Hn1 Hn2].
+    pose proof (binv_step_ntx junk v s B o HI Hv1 Hb1 Hn1) as HI'.
+    eapply IH; eauto.
+    destruct HI as (R & Hc & _).
+    destruct (vstep_rep_ntx L Hwf junk v s o R Hc Hv1 Hn1) as (_ & _ & Hf). rewrite Hf. exact Hv2.
+  Qed.
+
   Theorem binv_run_nt junk h : forall v s B, BInv L v s B ->
     shist_valid L (fixed_counts L (v_fixed v)) s h -> bhist_valid L s B h -> nt_hist_ok L s h ->
     exists B', BInv L (vrun L junk v h) (srun s h) B'.
@@ -143,5 +218,23 @@ Proof.
   intros L cap budget fixed aid junk bid tbid h Hwf Htl Hcap Hb Hfx. cbv zeta. intros Hv Hbv Hn.
   pose proof (binv_init L Hwf Htl cap budget fixed aid junk bid tbid Hcap Hb Hfx) as H0.
   destruct (binv_run_nt L Hwf Htl junk h _ _ _ H0) as [B' HI]; auto.
+  eapply binv_in_block; eauto.
+Qed.
+
+(* ... with the weaker restriction: none at all on lists without a VaryingSize parameter *)
+Theorem every_element_inside_block_every_history_ntx : forall L cap budget fixed aid junk bid tbid h,
+  wf_plist L = true -> tail_ok (SA L) true L = true ->
+  0 <= cap -> 0 <= budget -> Forall (fun c => 0 <= c) fixed ->
+  let v0 := fst (mkvec L cap budget fixed aid junk bid tbid) in
+  let s0 := {| s_cap := cap; s_elems := [] |} in
+  shist_valid L (fixed_counts L fixed) s0 h -> bhist_valid L s0 budget h -> nt_hist_okx L s0 h ->
+  let v := vrun L junk v0 h in
+  let l := s_elems (srun s0 h) in
+  exists offs, RepO L v l offs /\
+    Forall2 (fun a t => 0 <= a /\ elem_end L a t <= SA L * v_units v) offs l.
+Proof.
+  intros L cap budget fixed aid junk bid tbid h Hwf Htl Hcap Hb Hfx. cbv zeta. intros Hv Hbv Hn.
+  pose proof (binv_init L Hwf Htl cap budget fixed aid junk bid tbid Hcap Hb Hfx) as H0.
+  destruct (binv_run_ntx L Hwf Htl junk h _ _ _ H0) as [B' HI]; auto.
   eapply binv_in_block; eauto.
 Qed.
